@@ -216,8 +216,7 @@ class EstimationStep(ExecutionStep):
                 f"Predictions could not be converted to tuple. Recieved type '{type(predictions)}'"
             )
 
-        if derivatives:
-            derivatives = EstimationStep._canonicalize_derivatives(derivatives)
+        derivatives = EstimationStep._canonicalize_derivatives(derivatives)
 
         if parameter_uncertainty_method is not None:
             parameter_uncertainty_method = parameter_uncertainty_method.upper()
